@@ -161,6 +161,14 @@ def mk_ctor_fault(shape):
         def zz_second(self):
             self.b != 1
             maybe("ctor", 5)
+
+        @vsc.dynamic_constraint
+        def zz_dyn(self):
+            self.a != 2
+            maybe("ctor", 6)
+            with vsc.if_then(self.b == 1):
+                self.a == 0
+                maybe("ctor", 7)
     return PF
 
 
@@ -291,6 +299,21 @@ def with_block(o, kind):
             maybe("with", 2)
 
 
+def free_with_block(rs):
+    """victim: the free-function form on stand-alone fields, user code raising inside the block"""
+    x = vsc.rand_bit_t(4)
+    y = vsc.rand_bit_t(4)
+    with vsc.randomize_with(x, y, randstate=rs):
+        maybe("freewith", 0)
+        x == 5
+        maybe("freewith", 1)
+        with vsc.if_then(y == 1):
+            x < 9
+            maybe("freewith", 2)
+        y != 0          # dangling
+        maybe("freewith", 3)
+
+
 def unsat_call(o, kind):
     with o.randomize_with() as it:
         if kind == "plain":
@@ -313,7 +336,7 @@ SCENARIOS = {
 def fault_menu():
     F = []
     for shape in ("plain", "if", "implies", "foreach", "dangling"):
-        ks = [0, 1, 4, 5] + ([2, 3] if shape == "if" else [2] if shape != "plain" else [])
+        ks = [0, 1, 4, 5, 6, 7] + ([2, 3] if shape == "if" else [2] if shape != "plain" else [])
         for k in ks:
             F.append(("ctor", shape, k))
     for scn in SCENARIOS:
@@ -323,12 +346,14 @@ def fault_menu():
             F.append(("with", scn, k))
         F.append(("unsat", scn, None))
         F.append(("unsat_plain_randomize", scn, None))
+    for k in (0, 1, 2, 3):
+        F.append(("freewith", "plain", k))
     F += [("pre", "plain", "P"), ("post", "plain", "P"), ("pre", "nested", "H"), ("pre", "nested", "Sub"),
           ("post", "nested", "H"), ("post", "nested", "Sub"), ("post", "dist", "D"), ("pre", "order", "O")]
     return F
 
 
-FOLLOWUPS = ["new_order_class", "same_randomize", "fresh_randomize", "same_inline", "covergroup", "other_class_inline"]
+FOLLOWUPS = ["new_order_class", "same_randomize", "fresh_randomize", "same_inline", "covergroup", "other_class_inline", "free_inline"]
 
 
 def obs_fields(o):
@@ -416,6 +441,15 @@ def do_followup(name, ctx, script):
                     it.b == 3
             return obs_fields(o)
         return common.outcome(f)
+    if name == "free_inline":
+        def f():
+            u = vsc.rand_bit_t(4)
+            v = vsc.rand_bit_t(4)
+            with vsc.randomize_with(u, v, randstate=rs):
+                u == 7
+                v < u
+            return (int(u.get_val()), int(v.get_val()))
+        return common.outcome(f)
     if name == "covergroup":
         def f():
             @vsc.covergroup
@@ -444,7 +478,7 @@ def run_session(fault, followups, scripts, with_fault):
         ctx["victim"] = cls()
     victim_obs = None
     if with_fault:
-        PLAN.update({"where": fault[0] if fault[0] in ("ctor", "with", "pre", "post") else None, "k": fault[2], "armed": True})
+        PLAN.update({"where": fault[0] if fault[0] in ("ctor", "with", "pre", "post", "freewith") else None, "k": fault[2], "armed": True})
         try:
             if fault[0] == "ctor":
                 PF = mk_ctor_fault(fault[1])
@@ -453,6 +487,8 @@ def run_session(fault, followups, scripts, with_fault):
                 o = ctx["victim"]
                 o.set_randstate(SRandState(Script([])))
                 victim_obs = common.outcome(lambda: with_block(o, kind))
+            elif fault[0] == "freewith":
+                victim_obs = common.outcome(lambda: free_with_block(SRandState(Script([]))))
             elif fault[0] in ("pre", "post"):
                 o = ctx["victim"]
                 o.set_randstate(SRandState(Script([])))
@@ -490,7 +526,7 @@ def run_case(case):
     # (i) idle + residue right after the faulted call
     obs_a, idle, vobs = run_session(fault, [], [], True)
     cnt["executions"] += 1
-    expected_exc = {"ctor": "Boom", "with": "Boom", "pre": "Boom", "post": "Boom"}.get(fault[0])
+    expected_exc = {"ctor": "Boom", "with": "Boom", "pre": "Boom", "post": "Boom", "freewith": "Boom"}.get(fault[0])
     if vobs is not None:
         if expected_exc and not (vobs[0] == "exc" and vobs[1] == "Boom"):
             # a with-block fault may surface as SolveFailure only if the partial block is unsat; it never is here
